@@ -312,6 +312,8 @@ def run(rep, pdb, tier):
         else:
             rep.bad("permute-rhs/solve_lu", "solve_lu = factorise, permute, forward sweep, backsolve", sl["body"],
                     "lu calls=%d forward updates=%d backsolve calls=%d" % (len(lucalls), len(fwd), len(bsc)), where=loc(sl["body"]))
+    check_early_returns(rep, pdb, "early-return")
+    rep.floor("early-return/", 5)
     rep.floor("index-kinds/", 30)
     rep.floor("magnitude/", 2)
     rep.floor("argmax/", 2)
@@ -324,6 +326,17 @@ def run(rep, pdb, tier):
     rep.floor("length/", 2)
     rep.assumptions += ["decides the pivoting / elimination / substitution structure; backward error of order eps, exactness over rationals and agreement of the two solvers are numerical consequences not decided statically"]
     return {"index_sites": n_sites, "ordered_comparisons": n_cmp}
+
+
+def check_early_returns(rep, pdb, key, names=("partial_pivot", "gauss_with_pivot", "backsolve", "solve_basic", "solve_lu", "lu_decomp_in_place")):
+    """n >= 1 is the property's domain: an early return may only skip work that is vacuous (also evaluated under C02, C17)"""
+    from .common import rule_no_skipping_return
+    from .guards import norm_cmp
+    dom = [norm_cmp("<=", num(1), ROWS)]
+    for nm in names:
+        fn = pdb.fn("%s::%s" % (M, nm))
+        if fn is not None:
+            rule_no_skipping_return(rep, pdb, fn, "%s/%s" % (key, nm), dom)
 
 
 def _pos(n):
